@@ -78,9 +78,11 @@ theorem readW_enc (cfg : Cfg) (classes : List Bytes) (T : List Lbl) (hT : T.leng
 mutual
 /-- non-null object references inside a value -/
 def vTargets : Value → List Lbl
-  | .listener o => if o = 0 then [] else [o]
-  | .constArrayRef h => if h = 0 then [] else [h]
+  | .link _ _ o => if o = 0 then [] else [o]
+  | .holderRef _ h => if h = 0 then [] else [h]
   | .constArray _ _ es => vTargetsE es
+  | .array _ _ _ _ _ kvs => vTargetsE kvs
+  | .pointer _ vars => vars.filter (· ≠ 0)
   | _ => []
 def vTargetsE : List (Lbl × Value) → List Lbl
   | [] => []
@@ -102,13 +104,26 @@ theorem fixValue_raw (T Rf : List Lbl) : (v : Value) →
   | .string _, _ => by simp [rawValue, fixValue]
   | .constString _, _ => by simp [rawValue, fixValue]
   | .vector _, _ => by simp [rawValue, fixValue]
-  | .listener o, h => by
+  | .link c s o, h => by
     by_cases ho : o = 0
     · simp [rawValue, fixValue, look, ho]
     · have := h o (by simp [vTargets, ho])
       simp only [List.getD_eq_getElem?_getD] at this
       simp [rawValue, fixValue, look, ho, idxIn, this]
-  | .constArrayRef o, h => by
+  | .array hh rc tl th tli kvs, h => by
+    simp only [rawValue, fixValue]
+    rw [fixElems_raw T Rf kvs (by simpa [vTargets] using h)]
+  | .pointer p vars, h => by
+    simp only [rawValue, fixValue, List.map_map, Value.pointer.injEq, true_and]
+    have : ∀ o ∈ vars, (look Rf ∘ fun o => if o = 0 then 0 else idxIn T o) o = o := by
+      intro o hov
+      by_cases ho : o = 0
+      · simp [look, ho]
+      · have := h o (by simp [vTargets, hov, ho])
+        simp only [List.getD_eq_getElem?_getD] at this
+        simp [look, ho, idxIn, this]
+    rw [List.map_congr_left this]; simp
+  | .holderRef c o, h => by
     by_cases ho : o = 0
     · simp [rawValue, fixValue, look, ho]
     · have := h o (by simp [vTargets, ho])
@@ -147,9 +162,11 @@ theorem vTargets_ne_zero : (v : Value) → ∀ o ∈ vTargets v, o ≠ 0
   | .string _ => by simp [vTargets]
   | .constString _ => by simp [vTargets]
   | .vector _ => by simp [vTargets]
-  | .listener o => by by_cases ho : o = 0 <;> simp [vTargets, ho]
-  | .constArrayRef o => by by_cases ho : o = 0 <;> simp [vTargets, ho]
+  | .link _ _ o => by by_cases ho : o = 0 <;> simp [vTargets, ho]
+  | .holderRef _ o => by by_cases ho : o = 0 <;> simp [vTargets, ho]
   | .constArray _ _ es => by simpa [vTargets] using vTargetsE_ne_zero es
+  | .array _ _ _ _ _ kvs => by simpa [vTargets] using vTargetsE_ne_zero kvs
+  | .pointer _ vars => by simp [vTargets]
 theorem vTargetsE_ne_zero : (es : List (Lbl × Value)) → ∀ o ∈ vTargetsE es, o ≠ 0
   | [] => by simp [vTargetsE]
   | (_, v) :: es => by
